@@ -36,28 +36,31 @@ def isTimeout : CallResult → Bool
   | .done (.timeout _) _ => true
   | _ => false
 
-/-- one online update: (world, who answered the account-balance request, elapsed ms, completed) -/
-def wUpdate (w : World) : World × String × Nat × Bool :=
+/-- one online update: (world, who answered the account-balance request, elapsed ms, completed,
+    whether the grant must be positive: the account-balance answer and the rating answer that sizes the grant
+    are the update's own) -/
+def wUpdate (w : World) : World × String × Nat × Bool × Bool :=
   let t0 := w.now
   let (w, r1) := wCallRf w
-  if r1 == .hung then ({ w with hung := true }, "-", 0, false)
+  if r1 == .hung then ({ w with hung := true }, "-", 0, false, false)
   else
     let (w, r2) := wCallAbmf w
     match r2 with
-    | .hung => ({ w with hung := true }, "-", 0, false)
-    | .done (.timeout _) _ => (w, "0", w.now - t0, true)
+    | .hung => ({ w with hung := true }, "-", 0, false, false)
+    | .done (.timeout _) _ => (w, "0", w.now - t0, true, false)
     | .done o _ =>
       let who := match o with
         | .own _ => "own"
         | .foreign _ j => toString j
         | .timeout _ => "0"
       let (w, r3) := wCallRf w
-      if r3 == .hung then ({ w with hung := true }, "-", 0, false)
-      else if isTimeout r3 then (w, who, w.now - t0, true)
+      if r3 == .hung then ({ w with hung := true }, "-", 0, false, false)
+      else if isTimeout r3 then (w, who, w.now - t0, true, false)
       else
+        let pos := who == "own" && (match r3 with | .done (.own _) _ => true | _ => false)
         let (w, r4) := wCallRf w
-        if r4 == .hung then ({ w with hung := true }, "-", 0, false)
-        else (w, who, w.now - t0, true)
+        if r4 == .hung then ({ w with hung := true }, "-", 0, false, false)
+        else (w, who, w.now - t0, true, pos)
 
 def wManyUpdates : Nat → World → World
   | 0, w => w
@@ -74,8 +77,8 @@ def peerSteps : List String → World → List String → Option (List String)
     | "U", some _ =>
       if w.hung then peerSteps rest w ("u=skipped" :: acc)
       else
-        let (w, who, ms, done) := wUpdate w
-        peerSteps rest w ((if done then s!"u={who}:{ms}:1" else "u=-:-:0") :: acc)
+        let (w, who, ms, done, pos) := wUpdate w
+        peerSteps rest w ((if done then s!"u={who}:{ms}:1:{if pos then 1 else 0}" else "u=-:-:0:0") :: acc)
     | "N", some k =>
       let w := wManyUpdates k w
       peerSteps rest w (s!"n={k}:{if w.hung then 0 else 1}" :: acc)
